@@ -42,6 +42,10 @@ fn content(max_orders: usize, pairs: usize) -> BoxedStrategy<Content> {
         .boxed()
 }
 
+fn large_content() -> BoxedStrategy<Content> {
+    (40usize..=64).prop_flat_map(|n| content(n, 8)).prop_filter("large", |c| c.book.orders.len() >= 30).boxed()
+}
+
 const SUBST: [u8; 12] = [b'0', b'1', b'9', b'"', b',', b':', b'}', b']', b'a', b'f', b'Z', b' '];
 
 fn single_fault(orig: &[u8], kind: u8, pos: u16, alt: u8) -> Option<Vec<u8>> {
@@ -245,7 +249,25 @@ fn structural_edits(orig: &Value) -> Vec<(String, Value)> {
                 Value::String(s) => match f.as_str() {
                     "side" => vec![json!(if s == "BUY" { "SELL" } else { "BUY" })],
                     "time_in_force" => vec![json!(if s == "GTC" { "DAY" } else { "GTC" }), json!({"GTD": 5})],
-                    "id" => vec![json!("00000000-0000-0000-0000-00000000beef"), json!("01ARZ3NDEKTSV4RRFFQ69G5FAV")],
+                    "id" => {
+                        let mut v = vec![json!("00000000-0000-0000-0000-00000000beef"), json!("01ARZ3NDEKTSV4RRFFQ69G5FAV")];
+                        // the same 128 bits written in the other id format (a different id)
+                        if let Ok(id) = <pricelevel::OrderId as std::str::FromStr>::from_str(s) {
+                            let bits = u128::from_be_bytes(id.as_bytes());
+                            v.push(match id {
+                                pricelevel::OrderId::Uuid(_) => json!(ulid::Ulid::from(bits).to_string()),
+                                pricelevel::OrderId::Ulid(_) => json!(uuid::Uuid::from_u128(bits).to_string()),
+                            });
+                            // and other spellings of the same format where they exist
+                            if let pricelevel::OrderId::Uuid(u) = id {
+                                v.push(json!(u.simple().to_string()));
+                                v.push(json!(u.to_string().to_uppercase()));
+                            } else {
+                                v.push(json!(s.to_lowercase()));
+                            }
+                        }
+                        v
+                    }
                     "reference_price_type" => vec![json!(if s == "BestBid" { "BestAsk" } else { "BestBid" })],
                     _ => vec![json!("x")],
                 },
@@ -276,6 +298,7 @@ fn structural_edits(orig: &Value) -> Vec<(String, Value)> {
 }
 
 pub fn eval(c: &Content, st: &mut Stats, deep: bool) -> Result<(), String> {
+    let large = c.book.orders.len() > 12;
     let level = c.book.build_level();
     if let Some(q) = c.pre_match {
         let gen = UuidGenerator::new(uuid::Uuid::nil());
@@ -301,14 +324,19 @@ pub fn eval(c: &Content, st: &mut Stats, deep: bool) -> Result<(), String> {
     let ob = original.as_bytes();
     let n = ob.len();
     let h = hash_of(c);
+    // large packages: every offset near a 512-byte boundary (block-buffered hashing / IO) and at
+    // both ends, not every offset
+    let wanted = |i: usize| !large || i < 200 || i + 200 >= n || i % 512 < 48 || i % 512 >= 512 - 48;
     // every proper prefix (torn write)
-    for k in 0..n {
+    for k in (0..n).filter(|k| wanted(*k)) {
         judge(&mut j, &ob[..k], &|| format!("truncation to {k} of {n} bytes"))?;
     }
     st.add("faults/prefix", n as u64);
     // every single-byte substitution / deletion / insertion at every offset
-    let alts: &[u8] = if deep { &SUBST } else { &SUBST[..6] };
-    for i in 0..n {
+    // large packages (tens of orders, > 8 KiB): bit flip, digit +-1 and deletion at every offset,
+    // insertions and palette substitutions only with two bytes
+    let alts: &[u8] = if large { &SUBST[..2] } else if deep { &SUBST } else { &SUBST[..6] };
+    for i in (0..n).filter(|i| wanted(*i)) {
         let mut v = ob.to_vec();
         // bit flip, digit +-1, then the palette
         v[i] = ob[i] ^ 1;
@@ -330,7 +358,7 @@ pub fn eval(c: &Content, st: &mut Stats, deep: bool) -> Result<(), String> {
         judge(&mut j, &d, &|| format!("byte {i} deleted"))?;
     }
     st.add("faults/substitution_deletion_offsets", n as u64);
-    for i in 0..=n {
+    for i in (0..=n).filter(|i| wanted(*i)) {
         for &a in alts {
             let mut v = ob.to_vec();
             v.insert(i, a);
@@ -406,7 +434,7 @@ pub fn run(cfg: &RunCfg) -> Report {
     let mut rep = Report::new(
         "C09",
         "fault_enumeration",
-        "level contents (0-6 orders of all types, both id formats, boundary values, optionally after a match) serialized with snapshot_to_json; for each content EVERY proper prefix, EVERY single-byte substitution (bit flip, digit +-1, palette) and deletion at every offset, insertion of each palette byte at every offset, a catalogue of structural edits on the parsed JSON (version, checksum case/length, price, each aggregate, drop/duplicate/swap orders, every field of every order, type tag), pairs of faults and structural-edit+checksum-shortening pairs; each tampered text goes through from_snapshot_json, from_snapshot_package(serde_json::from_str) and from_json->validate/into_snapshot. Oracle: Err, or Ok only if the tampered package re-serializes byte-identically to the original (i.e. it is semantically the same package) and the restored content equals the snapshotted level. Non-trivial = fault after which the text still parses as JSON but to a different value (content, version or checksum changed); counted per (content, fault).",
+        "level contents (0-6 orders of all types, both id formats, boundary values, optionally after a match) serialized with snapshot_to_json; for each content (0-6 orders) EVERY proper prefix, EVERY single-byte substitution (bit flip, digit +-1, palette) and deletion at every offset, insertion of each palette byte at every offset, a catalogue of structural edits on the parsed JSON (version, checksum case/length, price, each aggregate, drop/duplicate/swap orders, every field of every order, type tag), pairs of faults and structural-edit+checksum-shortening pairs; plus a few large packages (30-64 orders, 8-16 KiB) with the same faults at every offset within 48 bytes of a 512-byte boundary and at both ends; each tampered text goes through from_snapshot_json, from_snapshot_package(serde_json::from_str) and from_json->validate/into_snapshot. Oracle: Err, or Ok only if the tampered package re-serializes byte-identically to the original (i.e. it is semantically the same package) and the restored content equals the snapshotted level. Non-trivial = fault after which the text still parses as JSON but to a different value (content, version or checksum changed); counted per (content, fault).",
     );
     rep.assumptions = vec![
         "SHA-256 collision resistance".into(),
@@ -418,6 +446,14 @@ pub fn run(cfg: &RunCfg) -> Report {
         "tamper",
         explore(cfg, "C09", n, move || content(6, 24), move |c: &Content, st| eval(c, st, deep)),
     );
+    if !rep.failed() {
+        // a few large levels (40-90 orders: packages of 8-25 KiB, beyond any 4/8/16 KiB block size)
+        let n = cfg.cases(16, 512);
+        rep.absorb(
+            "tamper",
+            explore(cfg, "C09-large", n, move || large_content(), move |c: &Content, st| eval(c, st, deep)),
+        );
+    }
     // an evaluation is one tampered package pushed through the restore paths
     let contents = rep.stats.evaluations;
     rep.extra.insert("contents".into(), json!(contents));
